@@ -195,7 +195,7 @@ class World(BaseWorld):
     def gen_op(self, rng):
         types = self.L.order
         table = [(40, 'lookup'), (8, 'regen'), (8, 'new_lg'), (6, 'new_factory'),
-                 (14, 'gen_ag'), (4, 'save_spec'), (6, 'scribble')]
+                 (14, 'gen_ag'), (4, 'save_spec'), (6, 'scribble'), (3, 'lookup_unknown')]
         kind = weighted(rng, table)
         u = 0
         if self.unis[1] is not None and rng.random() < 0.3:
@@ -225,6 +225,8 @@ class World(BaseWorld):
             return {'op': 'lookup', 'lg': lg, 'type': t, 'channel': ch}
         if kind == 'new_lg' and len(self.lgs) >= 3:
             kind = 'regen'
+        if kind == 'lookup_unknown':
+            return {'op': 'lookup_unknown', 'lg': lg, 'n': rng.choice([1, 1, 2, 3, 5])}
         if kind == 'scribble':
             return {'op': 'scribble', 'lg': lg, 'types': [rng.choice(types) for _ in range(2)],
                     'what': rng.choice(['resolver', 'nodes', 'nodes'])}
@@ -353,6 +355,18 @@ class World(BaseWorld):
         elif kind == 'gen_ag':
             out = self._gen_ag(op['lg'], op['types'], op['links'], op.get('fault_at'),
                                check_types=op['types'])
+        elif kind == 'lookup_unknown':
+            # asking for a type the language does not have: whatever the answer is,
+            # it must not change what is answered for the types that exist
+            fn = getattr(lg, '_get_attacks_for_asset_type', None)
+            for _ in range(op.get('n', 1)):
+                if fn is not None:
+                    call(fn, 'NoSuchAssetType')
+                call(lg.get_asset_by_name, 'NoSuchAssetType')
+            self.count('probe:unknown_type_looked_up')
+            for t in self.L.order[-2:] + self.L.order[:1]:
+                for ch in ('resolver', 'attackgraph'):
+                    self._apply_in({'op': 'lookup', 'lg': op['lg'], 'type': t, 'channel': ch})
         elif kind == 'scribble':
             out = self._scribble(op)
         elif kind == 'save_spec':
